@@ -24,7 +24,10 @@ RULE = (
     "grid, ensemble 1-2, Minkowski loss, 1-4 batches quick / 1-6 thorough; scheduler round-robin or RL; saving folder or not; "
     "n_jobs 1 or 2; target model / loss / sampler). A fault-free twin is run first and counts the invocations of the target; "
     "then for EVERY invocation index k a fresh calibrator is run with an exception (an Exception subclass, or in a quarter of the n_jobs=1 cases a KeyboardInterrupt subclass) injected at the k-th invocation (model under "
-    "n_jobs=2: keyed on the seed the twin used for invocation k). Oracle per fault: calibrate() raises the injected exception; "
+    "n_jobs=2: keyed on the seed the twin used for invocation k); with n_jobs=1 the fault class rotates over Exception, ValueError and "
+    "ZeroDivisionError subclasses, an exception with a two-argument constructor and a KeyboardInterrupt subclass, and half of the loss "
+    "faults are raised part-way through an evaluation. Oracle per fault: calibrate() raises the injected exception (in-process: the very "
+    "object, once); with a saving folder the folder restores to exactly the completed batches (nothing for a fault in the first batch); "
     "counters and history equal the twin truncated to the batches completed before the fault and pass the C02 alignment "
     "oracle; no thread that was started by the calibration and has a black_it frame on its stack is alive; a following "
     "calibrate(1) returns, is scheduled as the scheduler prescribes and keeps the history aligned. A few scenarios also run in "
@@ -35,7 +38,7 @@ ASSUMPTIONS = [
     "joblib/loky service threads are reported, not judged (no black_it frame on their stack)",
     "RL scheduler with a saving folder cannot run at all (known finding rl-scheduler-not-checkpointable under C04): that combination is counted, not enumerated",
 ]
-REQUIRED_COUNTERS = {"faults_not_exception_subclass": 30, "faults_injected": 250, "faults_model": 80, "faults_loss": 40, "faults_sampler": 40, "faults_rl": 60, "faults_njobs2": 20,
+REQUIRED_COUNTERS = {"fault_class_value": 20, "fault_class_arith": 20, "fault_class_twoargs": 20, "loss_faults_part_way_through_an_evaluation": 15, "folder_restored_after_fault": 30, "faults_not_exception_subclass": 30, "faults_injected": 250, "faults_model": 80, "faults_loss": 40, "faults_sampler": 40, "faults_rl": 60, "faults_njobs2": 20,
                      "faults_with_folder": 60, "reuse_ok": 200, "child_process_exits": 2}
 SHARDS = {"quick": 16, "thorough": 16}
 SHARD_WATCHDOG = {"quick": 1500, "thorough": 10800}
@@ -141,9 +144,13 @@ def run_enum(desc, ctx, out):
     nb = int(rng.integers(1, 5 if desc["tier"] == "quick" else 7))
     interrupt = n_jobs == 1 and i % 4 == 3   # the fault is a KeyboardInterrupt-like BaseException (Ctrl-C during a simulation)
     Fault = M.InjectedInterrupt if interrupt else M.InjectedFault
+    # the class of the fault varies: plain Exception, ValueError / ZeroDivisionError subclasses (what "robust" code swallows), an
+    # exception with a two-argument constructor (cannot be re-created from a message), KeyboardInterrupt subclass
+    fkind = "interrupt" if interrupt else (["plain", "value", "arith", "twoargs"][(i // 2) % 4] if n_jobs == 1 else "plain")
+    inside = target == "loss" and i % 2 == 1      # the loss fails part-way through an evaluation (after its first coordinates)
     D, P = cfg["D"], cfg["P"]
     L = len(cfg["lineup"]) + (1 if rl and not any(d["kind"] == "Halton" for d in cfg["lineup"]) else 0)
-    wit = {"config": cfg, "batches": nb, "target": target, "n_jobs": n_jobs, "folder": use_folder}
+    wit = {"config": cfg, "batches": nb, "target": target, "n_jobs": n_jobs, "folder": use_folder, "fault_class": fkind, "loss_fails_part_way": inside}
 
     # ---------------- fault-free twin: counts invocations per batch
     calls = {"sample_batch": [], "loss": []}
@@ -192,9 +199,10 @@ def run_enum(desc, ctx, out):
         loss = U.FailingMinkowski(None)
         ctxs = []
         if target == "model":
-            model = M.FailAtCall(D, k, Fault) if n_jobs == 1 else M.FailAtSeed(D, seeds[k])
+            model = M.FailAtCall(D, k, Fault, kind=fkind) if n_jobs == 1 else M.FailAtSeed(D, seeds[k])
         elif target == "loss":
-            loss = U.FailingMinkowski(k, interrupt=interrupt)
+            loss = U.FailingMinkowski(k, interrupt=interrupt, kind=fkind, inside=inside)
+        del M.RAISED[:]
         cal = build(cfg, folder, n_jobs, model=model, loss=loss)
         pristine = U.FailingMinkowski(None)
         before = {t.ident for t in threading.enumerate()}
@@ -204,7 +212,7 @@ def run_enum(desc, ctx, out):
             j = state["n"]
             state["n"] += 1
             if j == k:
-                raise Fault(f"sample_batch call {j}")
+                raise M.make_fault(fkind, f"sample_batch call {j}")
 
         raised = None
         mon = CM.RunMonitor(cal, snapshots=False)
@@ -220,7 +228,7 @@ def run_enum(desc, ctx, out):
                         cal.calibrate(nb)
                 else:
                     cal.calibrate(nb)
-        except (M.InjectedFault, M.InjectedInterrupt) as e:
+        except M.INJECTED as e:
             raised = e
         except G.Timeout:
             release(cal)
@@ -245,8 +253,17 @@ def run_enum(desc, ctx, out):
         bad = []
         if raised is None:
             bad.append(f"fault at {target} invocation {k} (batch {b}) was swallowed: calibrate() returned normally")
-        elif not (isinstance(raised, (M.InjectedFault, M.InjectedInterrupt)) or (n_jobs == 2 and "InjectedFault" in type(raised).__name__)):
+        elif not (isinstance(raised, M.INJECTED) or (n_jobs == 2 and "InjectedFault" in type(raised).__name__)):
             bad.append(f"fault at {target} invocation {k}: calibrate() raised {type(raised).__name__}: {str(raised)[:120]} instead of the injected exception")
+        elif n_jobs == 1 and M.RAISED and raised is not M.RAISED[0]:
+            # in-process: "that exception" is the very object that was raised (class, arguments and attributes intact)
+            bad.append(f"fault at {target} invocation {k}: calibrate() raised a different exception object ({type(raised).__name__}{raised.args!r}) than the one injected "
+                       f"({type(M.RAISED[0]).__name__}{M.RAISED[0].args!r})")
+        if n_jobs == 1 and len(M.RAISED) > 1:
+            bad.append(f"after the fault at {target} invocation {k} the target was invoked again within the same calibrate() ({len(M.RAISED)} faults raised)")
+        cnt(f"fault_class_{fkind}")
+        if inside:
+            cnt("loss_faults_part_way_through_an_evaluation")
         # threads
         judged, others = new_threads(before)
         if others:
@@ -261,6 +278,25 @@ def run_enum(desc, ctx, out):
         d = S.history_equal(S.history_arrays(cal), {h: H[h][:rows] for h in S.HISTORY})
         if d:
             bad.append(f"fault at {target} invocation {k} (batch {b}): history is not the fault-free prefix of {rows} rows: " + "; ".join(d[:2]))
+        # what is on disk after the failure: the checkpoint of the last completed batch, nothing newer and nothing torn
+        if use_folder and not bad:
+            from black_it.calibrator import Calibrator
+
+            try:
+                with quiet():
+                    rest = Calibrator.restore_from_checkpoint(folder, CG.model_for(cfg))
+                if b == 0:
+                    bad.append("a fault in the very first batch left a restorable checkpoint although no batch was completed")
+                else:
+                    dd = S.history_equal(S.history_arrays(rest), {h: H[h][:rows] for h in S.HISTORY})
+                    if dd or rest.current_batch_index != b:
+                        bad.append(f"fault in batch {b}: the checkpoint in the saving folder restores {rest.current_batch_index} batches / differs from the {rows} completed rows: " + "; ".join(dd[:2]))
+                cnt("folder_restored_after_fault")
+            except Exception as e:  # noqa: BLE001
+                if b >= 1:
+                    bad.append(f"fault in batch {b}: the checkpoint of the completed batches can no longer be restored ({type(e).__name__}: {str(e)[:120]})")
+                else:
+                    cnt("folder_empty_after_fault_in_first_batch")
         # reuse
         if not bad:
             if target == "model":
